@@ -8,6 +8,7 @@
 -/
 import GM.Props.C02c
 import GM.Props.Consts.Parser
+import GM.Props.C02Emph
 
 namespace GM.Props.C02
 open GM GM.Spec.CM
@@ -43,5 +44,36 @@ theorem consts_autolink_regexps_tied : GM.Spec.Consts.allOk GM.Spec.Consts.autol
 theorem consts_limits_tied : GM.Spec.Consts.allOk GM.Spec.Consts.limits = true := GM.Props.Consts.Parser.limits_tied
 /-- (package consts) bullet / delimiter / fence / heading / emphasis marker bytes are the models' -/
 theorem consts_markers_tied : GM.Spec.Consts.allOk GM.Spec.Consts.markers = true := GM.Props.Consts.Parser.markers_tied
+
+/-- (re-export of `GM.Props.C02Emph.emph_preserves_text`) `emph_preserves_text`: writing the tree back — every `<em>` node as one, every `<strong>` node as two of its
+    delimiter characters around its children, text and line breaks as they are — gives exactly the characters of
+    the token sequence (= the source with escape backslashes removed).  So the text content of the prescribed HTML
+    (`textOfL`: the same traversal without the delimiter characters of the nodes) is the source with exactly the
+    consumed delimiter characters and the escape backslashes removed, in order; no character is lost, duplicated
+    or invented, and a delimiter character is dropped only as part of a matched pair. -/
+theorem emph_preserves_text : type_of% @GM.Props.C02Emph.emph_preserves_text := @GM.Props.C02Emph.emph_preserves_text
+
+/-- (re-export of `GM.Props.C02Emph.emph_sound_rules_1_8`) `emph_sound_rules_1_8` (and 9/10): every `<em>` / `<strong>` node of the tree — at any depth — was made from
+    two DIFFERENT delimiter runs of the token sequence, the opening one before the closing one, of the node's
+    delimiter character, where the first can open and the second can close emphasis (rules 1-8, computed by `mkRun`
+    from left- and right-flanking) and the pair satisfies the multiple-of-3 condition of rules 9/10 (`matchesRun`). -/
+theorem emph_sound_rules_1_8 : type_of% @GM.Props.C02Emph.emph_sound_rules_1_8 := @GM.Props.C02Emph.emph_sound_rules_1_8
+
+/-- (re-export of `GM.Props.C02Emph.emph_html_balanced`) the prescribed HTML is tag-balanced: it is the concatenation of an event sequence (`<em>` `<strong>` `</em>`
+    `</strong>`, escaped text / line endings / `<br />`) in which every closing tag closes the innermost open element and
+    nothing stays open — for the tree of EVERY token sequence -/
+theorem emph_html_balanced : type_of% @GM.Props.C02Emph.emph_html_balanced := @GM.Props.C02Emph.emph_html_balanced
+
+/-- (re-export of `GM.Props.C02Emph.emph_html_text`) the text content of the prescribed HTML (tags stripped; still entity-escaped) is the escaped text content of the
+    tree, i.e. by `emph_preserves_text` the escaped source without escape backslashes and consumed delimiters -/
+theorem emph_html_text : type_of% @GM.Props.C02Emph.emph_html_text := @GM.Props.C02Emph.emph_html_text
+
+/-- (re-export of `GM.Props.C02Emph.openers_bottom_is_optimisation`) the `openers_bottom` table of the spec's appendix is a pure optimisation of this reference (which leaves it out):
+    the closing loop WITH a table that remembers, per key, how many bottom-most stack entries a failed search has
+    ruled out (`Proof.CMEmphMemo.parseM`; a count, clamped when the stack shrinks, instead of the appendix's pointer)
+    computes the same tree for EVERY token sequence when the key is the appendix's — delimiter character, whether the
+    closer can also open, closer length mod 3.  More generally (`Proof.CMEmphMemo.parseM_eq`) for every key that
+    determines which openers a closer may take. -/
+theorem emph_openers_bottom_is_optimisation : type_of% @GM.Props.C02Emph.openers_bottom_is_optimisation := @GM.Props.C02Emph.openers_bottom_is_optimisation
 
 end GM.Props.C02
